@@ -259,7 +259,7 @@ def gen_inside_observers(rng, nps, faces, k):
         return w @ f, f
 
     for _ in range(k):
-        c = rng.choice(["inside", "outside", "bbox", "face", "edge", "vertex", "nearvertex", "lattice", "offsurf", "offsurf", "centre"])
+        c = rng.choice(["inside", "outside", "bbox", "face", "edge", "vertex", "nearvertex", "lattice", "offsurf", "offsurf", "centre", "touchband", "touchband"])
         if c == "inside":  # convex combination of a face point and the vertex mean (inside for the convex bodies)
             p, _ = face_point("face")
             p = cen + nps.uniform(0, 0.98) * (p - cen)
@@ -276,6 +276,18 @@ def gen_inside_observers(rng, nps, faces, k):
             p = p + d / np.linalg.norm(d) * size * 10 ** nps.uniform(-9.5, -6.5)
         elif c == "lattice":  # regular lattice aligned with the bounding box (box faces, L-body planes)
             p = lo + np.array([rng.randrange(-1, 6) for _ in range(3)]) / 4.0 * (hi - lo)
+        elif c == "touchband":
+            # around the touch tolerance of lines_end_in_trimesh: 10^-8 .. 10^-6 sizes off a facet, foot point at a distance of
+            # 0.02 .. 1 facet sizes from the facet's reference corner (the criterion is the cosine of the angle seen from that corner,
+            # so the band's width in length units depends on where over the facet the point sits)
+            f = faces[rng.randrange(len(faces))]
+            nrm = np.cross(f[1] - f[0], f[2] - f[0])
+            nn = np.linalg.norm(nrm)
+            w = nps.dirichlet([1, 1, 1])
+            t = 10 ** nps.uniform(-1.7, 0)
+            p = f[2] + t * (w @ f - f[2])
+            if nn > 0:
+                p = p + rng.choice([-1, 1]) * 10 ** nps.uniform(-8, -6) * size * nrm / nn
         elif c == "offsurf":
             p, f = face_point(rng.choice(["face", "face", "edge", "vertex"]))
             nrm = np.cross(f[1] - f[0], f[2] - f[0])
